@@ -42,14 +42,26 @@ def sliding_window_waiters(count, nacq, c0, c1, c2, c3, c4, c5, s1=-1, t1=0, s2=
     s = _sem(count)
     got = []
     holding = [0]
+    # nacq may also be a string of tags, one per thread ('uutt': two threads on tag u, two on tag t - waiters can then
+    # park on a tag the semaphore has never seen while other tags hold the capacity)
+    # an upper-case tag is a token taken (non-blocking) before the threads start and released, one per step, by a
+    # separate releaser thread: 'UUtt' with capacity 2 = both waiters park on the new tag t while U holds everything
+    tags = nacq if isinstance(nacq, str) else 't' * nacq
+    held = [(t, s.acquire(t, blocking=False)) for t in tags if t.isupper()]
+    tags = ''.join(t for t in tags if not t.isupper())
+    nacq = len(tags)
 
-    def worker():
-        tok = yield from s._co_acquire('t')
-        got.append(tok)
+    def releaser():
+        for t, k in held:
+            yield from s._co_release(t, k)
+
+    def worker(tag):
+        tok = yield from s._co_acquire(tag)
+        got.append((tag, tok))
         holding[0] += 1
         yield ('pt', 'holding')
         holding[0] -= 1
-        yield from s._co_release('t', tok)
+        yield from s._co_release(tag, tok)
 
     def invariant():
         if s._count < 0:
@@ -64,13 +76,14 @@ def sliding_window_waiters(count, nacq, c0, c1, c2, c3, c4, c5, s1=-1, t1=0, s2=
         if s2 >= 0:
             pre.append((s1 + 1 + s2, t2))
     # with preemptions: thread 0 first, then the last one, the middle ones last (a parked waiter is overtaken)
-    prio = [nacq + 1] + [1] * (nacq - 2) + [2] if pre else None
+    prio = [nacq + 1] + [1] * (nacq - 2) + [2] if pre and not held else None
     sch = co.Scheduler([c0, c1, c2, c3, c4, c5], max_steps=300, preempt=pre, prio=prio)
-    v = sch.run([worker() for _ in range(nacq)], invariant)
+    v = sch.run([worker(t) for t in tags] + ([releaser()] if held else []), invariant)
     if v:
         return v if v.startswith('sem:') else 'sem: ' + v
-    if sorted(got) != list(range(nacq)):
-        return 'sem: tokens are not 0..n-1 each once'
+    for t in set(tags):
+        if sorted(k for g, k in got if g == t) != list(range(tags.count(t))):
+            return 'sem: tokens are not 0..n-1 each once'
     if s._count != count:
         return 'sem: capacity not restored after every token was released'
     if s._condition.waiters:
@@ -343,9 +356,9 @@ _C6 = 'c0: int, c1: int, c2: int, c3: int, c4: int, c5: int'
 _C6P = ['0 <= c%d <= 2' % i for i in range(6)]
 _S8 = 's0: int, s1: int, s2: int, s3: int, s4: int, s5: int, s6: int, s7: int'
 _S8P = ['0 <= s%d <= 1' % i for i in range(8)]
-OB_SEM = dict(id='CO.sem', impl='sliding_window_waiters', params=_C6, cases=[(1, 2), (1, 3), (2, 3)], pre=_C6P,
+OB_SEM = dict(id='CO.sem', impl='sliding_window_waiters', params=_C6, cases=[(1, 2), (1, 3), (2, 3), (2, 'UUtt')], pre=_C6P,
               splits=[['c0 == %d' % i] for i in range(3)], timeout=(170, 900),
-              bounds='capacity 1..2, 2..3 blocking acquirers/releasers of one tag, 6 symbolic scheduling choices in 0..2 '
+              bounds='capacity 1..2, 2..3 blocking acquirers/releasers of one tag (and 2 of a tag not seen before, parked while 2 tokens of another tag are held and then released by a third thread), 6 symbolic scheduling choices in 0..2 '
                      '(monitor-level interleavings; which waiter a notify wakes is a choice too)',
               encodes=['SlidingWindowSemaphore.acquire (blocking)', 'release', 'Condition wait/notify'],
               assumptions=['co-versions generated from the source', 'model Condition: notify wakes one chosen waiter'])
@@ -362,6 +375,18 @@ OB_SEMP = dict(id='CO.sem-preempt', impl='sliding_window_preempt', params='s1: i
                bounds='capacity 1 with 3 acquirers (thorough also 2 with 4); priority schedule plus two preemptions at '
                       'symbolic steps (quick: both to the parked waiter) - a woken waiter can be overtaken by a newcomer',
                encodes=['SlidingWindowSemaphore.acquire (blocking, wake-up re-check)', 'release', 'Condition'],
+               assumptions=['co-versions generated from the source', 'model Condition'])
+OB_SEMN = dict(id='CO.sem-newtag', impl='sliding_window_preempt', params='s1: int, t1: int, s2: int, t2: int',
+               cases=[(2, 'UUtt')], cases_thorough=[(2, 'UUtt'), (1, 'Utt'), (2, 'UUttt'), (3, 'UUUtt')],
+               pre=['0 <= s1 <= 36', '0 <= t1 <= 2', 's2 == -1', 't2 == 0'],
+               pre_thorough=['0 <= s1 <= 40', '0 <= t1 <= 3', '-1 <= s2 <= 12', '0 <= t2 <= 3'],
+               splits=[['t1 == %d' % a] for a in range(3)],
+               timeout=(170, 1200),
+               bounds='capacity 2 held by two tokens of another tag; 2 acquirers (thorough: up to 3, capacities 1..3) park on a '
+                      'tag the semaphore has not seen; a third thread releases the held tokens; default order plus one '
+                      '(thorough: two) preemption(s) at a symbolic step to a symbolic thread',
+               encodes=['SlidingWindowSemaphore.acquire (blocking, first token of a tag issued after a wait)', 'release',
+                        'Condition'],
                assumptions=['co-versions generated from the source', 'model Condition'])
 OB_CCI = dict(id='CO.invoker', impl='count_callback', params='c0: int, c1: int, c2: int, c3: int, c4: int',
               cases=[(1,), (2,), (3,)], pre=_C6P[:5], timeout=(170, 900),
